@@ -251,6 +251,7 @@ pub fn main(spec_path: &str) {
     let mut printers_late = false;
     let mut linger = false;
     let mut key_delay_ms = 0u64;
+    let mut between_us = 0u64;      // the application is busy for that long between two reads
     let mut color_mode = rustyline::ColorMode::Enabled;
     let mut binds: Vec<(Vec<KeyEvent>, Cmd)> = Vec::new();
     let mut sqlite: Option<String> = None;
@@ -296,6 +297,7 @@ pub fn main(spec_path: &str) {
             "printers_late" => printers_late = t[1] == "1",
             "linger" => linger = t[1] == "1",
             "key_delay_ms" => key_delay_ms = t[1].parse().unwrap(),
+            "between_us" => between_us = t[1].parse().unwrap(),
             "stdout_full" => stdout_full = t[1] == "1",
             "stdin_ro" => stdin_ro = t[1] == "1",
             "preferterm" => preferterm = t[1] == "1",
@@ -419,7 +421,7 @@ pub fn main(spec_path: &str) {
         .unwrap()
         .behavior(if preferterm { rustyline::Behavior::PreferTerm } else { rustyline::Behavior::Stdio })
         .build();
-    let st = Setup { log: log.clone(), use_helper, script, binds, printer, nprinters, printers_late, linger, reads, initial, prompt, pause, key_delay_ms };
+    let st = Setup { log: log.clone(), use_helper, script, binds, printer, nprinters, printers_late, linger, reads, initial, prompt, pause, key_delay_ms, between_us };
     if let Some(path) = sqlite {
         let _ = std::fs::remove_file(&path);
         {
@@ -462,6 +464,7 @@ struct Setup {
     prompt: String,
     pause: bool,
     key_delay_ms: u64,
+    between_us: u64,
 }
 
 /// printer threads, told what to print by lines "<thread> <hex text>" on fd 4; each finished print is
@@ -497,7 +500,7 @@ fn spawn_printers<I: History>(rl: &mut Editor<ScriptHelper, I>, nprinters: usize
 }
 
 fn drive<I: History>(mut rl: Editor<ScriptHelper, I>, st: Setup, history: &[String]) {
-    let Setup { log, use_helper, script, binds, printer, nprinters, printers_late, linger, reads, initial, prompt, pause, key_delay_ms } = st;
+    let Setup { log, use_helper, script, binds, printer, nprinters, printers_late, linger, reads, initial, prompt, pause, key_delay_ms, between_us } = st;
     if use_helper {
         rl.set_helper(Some(ScriptHelper { s: script, hl: MatchingBracketHighlighter::new(), calls: Mutex::new(0) }));
     }
@@ -541,6 +544,9 @@ fn drive<I: History>(mut rl: Editor<ScriptHelper, I>, st: Setup, history: &[Stri
         if i == 0 && printers_late && nprinters > 0 {
             // the printers of this session are created only now, after a read that ran without any
             spawn_printers(&mut rl, nprinters, &log);
+        }
+        if between_us > 0 {
+            std::thread::sleep(std::time::Duration::from_micros(between_us));
         }
         if pause {
             // let the driver look at (and change) the terminal settings between two reads
